@@ -143,6 +143,8 @@ def run(tier, seed, findings):
             {"t": "doc", "c": [P(T("x", "strong"), T(" "), T("y", "em"), T(" "), T("z", "code"))]},
             {"t": "doc", "c": [{"t": "code_block", "c": [T("  a  b\n   c ")]}, P(T("t"))]},
             {"t": "doc", "c": [{"t": "code_block", "c": [T("x\n\ny")]}]},
+            # empty-string attribute values must survive the round trip
+            {"t": "doc", "c": [P(T("here", ["link", {"href": ""}]), {"t": "image", "a": {"src": "", "title": ""}}, {"t": "image", "a": {"src": "i.png", "title": ""}})]},
         ]:
             docs.append(D.from_json(S, js))
         for doc in docs:
